@@ -45,6 +45,8 @@ def make_config(rng, cosmo_name=None, ci=None):
     cosmo_name = cosmo_name or (rng.choice(["Planck15", "Planck15", "WMAP9"]) if ci is None
                                 else cosmos.NAMES[(ci // 2) % len(cosmos.NAMES)])
     cosmo_arg, cosmology = cosmos.get(cosmo_name)
+    if cosmo_name in ("custom", "open", "closed") and unit in ("rad", "deg", "arcmin") and ci is not None:
+        unit = ["kpc", "Mpc/h", "Mpc", "kpc/h"][(ci // 12) % 4]      # a non-standard cosmology shows only in physical / comoving scales
     S = rng.choice([1, 1, 2, 3])
     zref = float((edges[0] + edges[1]) / 2)
     scales = []
@@ -346,6 +348,35 @@ def run_case(ck, rng, root, ci, tier):
             if st == "guard":
                 break
         ck.case(None, desc + ("remeasured",))
+    # stratum: the same catalogs measured again with ANOTHER COSMOLOGY and otherwise identical parameters (scales, edges, closed
+    # side): the angles of the second measurement are those of its own cosmology (two user-defined models are different
+    # models, whatever `==` of the configurations says)
+    if status == "ok" and (cfgkw["cosmology"] == "custom" or ci % 5 == 2) and cfgkw["unit"] not in ("rad", "deg", "arcmin", "arcsec"):
+        import cosmos
+        name2 = {"custom": "custom2", "Planck15": "WMAP9"}.get(cfgkw["cosmology"], "Planck15")
+        arg2, cosmology2 = cosmos.get(name2)
+        cfgkw3 = dict(cfgkw, cosmology=name2)
+        try:
+            config3 = config.modify(cosmology=arg2)
+            if kind == "auto":
+                cfs3 = yaw.autocorrelate(config3, cats[0], cats[1], count_rr=True)
+            else:
+                cfs3 = yaw.crosscorrelate(config3, cats[0], cats[1], **kw)
+        except Exception as exc:  # noqa: BLE001
+            ck.add_violation(f"second measurement on the same catalogs with cosmology {name2} raised {type(exc).__name__}: {exc}",
+                             dict(rep, config=cfgkw3, earlier_measurement=cfgkw, what="raises"))
+            return "bad"
+        ck.count(f"stratum=remeasure-other-cosmology:{cfgkw['cosmology']}->{name2}")
+        rep3 = dict(rep, config=cfgkw3, earlier_measurement_in_this_process=cfgkw)
+        for name, a, b, binned2 in terms:
+            ncs = [getattr(cf, name) for cf in cfs3]
+            st, _ = compare(ck, f"{kind}:{name} (measured after cosmology {cfgkw['cosmology']} in the same process)", ncs, data[a],
+                            None if b is None else data[b], cfgkw3, cosmology2, N, binned2, rep3)
+            if st == "bad":
+                return "bad"
+            if st == "guard":
+                break
+        ck.case(None, desc + ("remeasured-cosmology",))
     return status
 
 
